@@ -626,6 +626,8 @@ impl Formatter {
         let text_str = self.inline_paragraph(text);
         if self.html {
           format!("<a href=\"{}\" class=\"mech-hyperlink\">{}</a>",url_str,text_str)
+        } else if text_str == url_str {
+          url_str
         } else {
           format!("[{}]({})",text_str,url_str)
         }
@@ -793,6 +795,7 @@ impl Formatter {
 
     let src = node.src.to_string();
     let caption_p = match &node.caption {
+      Some(caption) if !self.html => self.inline_paragraph(caption),
       Some(caption) => self.paragraph(caption),
       None => "".to_string(),
     };
